@@ -26,7 +26,7 @@ theorem ordered_ne_invalid {p : PolicyFn} (h : OrderedPolicy p) (k t f : Nat) : 
   · rw [ordered_gt h k t f h1]; simp
 
 section
-variable {c : Cfg} {H : Nat → Prop} {P : Nat → Nat} {R : Nat → Prop} {m : Mem}
+variable {c : Cfg} {H : Nat → Nat} {P : Nat → Nat} {R : Nat → Prop} {m : Mem}
 
 /-- `Tree::put` on an unreserved entry whose counter fits -/
 theorem Tree.put_unreserved (ok : CfgOk c) (t : Tree) (n : Nat) (hr : t.reserved = false) (h8 : t.cls < 8) (hsum : t.free + n ≤ c.geom.treeFrames) :
@@ -83,15 +83,14 @@ theorem tunreserve_spec (ok : CfgOk c) (inv : UpperInv c H P R m) (i n cls : Nat
   · intro h; exact absurd rfl h.2
   · intro j hj; exact ⟨fun h => h.1, fun h => ⟨h, hj⟩⟩
   · intro j hj; exact gset_other P i _ j hj
-  · intro j _ h; exact h
-  · simp only [gset_same]; omega
-  · intro hn'; have := inv.counterEq i t ht hn'; simp only [gset_same]; omega
+  · intro j _; rfl
+  · have := inv.counter i t ht; simp only [gset_same]; omega
 
 /-- slot `s` holds no reservation -/
 def SlotAbsent (m : Mem) (s : Nat) : Prop := ∀ l : LTree, m.slots[s]? = some l → l.present = false
 
 /-- what one pass over a slot keeps: the invariant, the allocation state, absent slots -/
-def DrainKeeps (c : Cfg) (H : Nat → Prop) (m m' : Mem) : Prop :=
+def DrainKeeps (c : Cfg) (H : Nat → Nat) (m m' : Mem) : Prop :=
   UpperInv0 c H m' ∧ SameAlloc m m' ∧ ∀ s, SlotAbsent m s → SlotAbsent m' s
 
 theorem DrainKeeps.trans {a b d : Mem} (h1 : DrainKeeps c H a b) (h2 : DrainKeeps c H b d) : DrainKeeps c H a d :=
